@@ -3,14 +3,20 @@ NOTES = ("All checks are driven by /verif/check (python3, stdlib). Specification
          "/verif/harness (binary gv) and the goml CLI are rebuilt from /repo's working tree on every run with --cfg goml_verif. "
          "Exit 0 = held (KNOWN-FINDING lines for defects listed in known_findings.json), 1 = VIOLATION, 2 = tool error.")
 ENGINES = [
-    {"name": "tlc", "path": "/verif/spec", "serves_properties": ["C01", "C02", "C05", "C06", "C07", "C08", "C09", "C10", "C11", "C12", "C13", "C14", "C15", "C16", "C17", "C18", "C19", "C03"],
+    {"name": "tlc", "path": "/verif/spec", "serves_properties": ["C01", "C02", "C05", "C06", "C07", "C08", "C09", "C10", "C11", "C12", "C13", "C14", "C15", "C16", "C17", "C18", "C19", "C03", "C04"],
      "kind_free_text": "TLA+ specifications model-checked / simulated by TLC 1.8"},
-    {"name": "gv", "path": "/verif/harness", "serves_properties": ["C01", "C02", "C05", "C06", "C07", "C08", "C09", "C10", "C11", "C12", "C13", "C14", "C15", "C16", "C17", "C18", "C19", "C03"],
+    {"name": "gv", "path": "/verif/harness", "serves_properties": ["C01", "C02", "C05", "C06", "C07", "C08", "C09", "C10", "C11", "C12", "C13", "C14", "C15", "C16", "C17", "C18", "C19", "C03", "C04"],
      "kind_free_text": "Rust conformance harness with path dependencies on /repo/crates/*, and the goml CLI built from /repo"},
 ]
 PENDING = "check not built yet in this round (planned in DESIGN.md §4); not a claim that the technique cannot apply"
 NOT_APPLICABLE = {p: PENDING for p in ["C%02d" % i for i in range(1, 21)]}
 CHECKS = {
+    "C04": {
+        "level": "model_checking",
+        "technique": "Pipeline.tla is the contract of the entry points (stages in order, Err(stage) with >= 1 error diagnostic as soon as a stage reports one, Ok otherwise, every behaviour ends with a result), model-checked incl. termination; PipelineTrace.tla validates the recorded outcome of every real run against it; inputs come from TLC generators (MCTokens.tla token sequences x syntactic contexts, Layouts.tla package layouts) and the generators of the other checks, and are run through pipeline::compile in process and through the real binary (run / check / build / link)",
+        "text": "Every token sequence of length <= 2 over the full 65-token alphabet (<= 3 over 37 core tokens) in 12 syntactic contexts (top level, body, expression, type, pattern, generic list, fields, arguments, closure parameters, variants, impl and trait bodies); all strings of <= 2 (3) symbols over C12's lexical alphabet plus seeded longer ones and mutated corpus files; every generated program family of the other checks and thousands of ill-typed variants (C03's mutation engine); 20 shapes of nesting / chaining / wide declarations at depth 16..200 in process and 300..3000 through the real binary (own stack); 2400 package layouts (what main imports x state of the imported directories x sibling files: absent, empty, wrong package name, garbage, not UTF-8, import cycles, file instead of directory, duplicate definitions, a sibling whose error lies beyond the entry file's length); interface/core artifacts malformed structurally (truncation, wrong JSON types, deleted keys, emptied containers, huge numbers) offered to check / build / link; the CLI on unreadable, non-UTF-8, empty, directory and missing inputs. A run violates the property when it panics, is killed by a signal, exceeds 60 s, succeeds without output, fails without an error diagnostic / message, or reports a position outside the text or off a character boundary.",
+        "note": "Shapes whose compile time grows polynomially (nested tuples, arrays, while loops: ~d^3..d^4) are kept below the depth where they would exceed the time bound; they terminate. Diagnostics carry no file name, so positions are judged for single-file inputs only. In-process runs use a 256 MiB stack; stack exhaustion is judged on the binary.",
+    },
     "C03": {
         "level": "model_checking",
         "technique": "IRTyping.tla is the typing judgment of goml's intermediate representations (scoping, signatures, constructors, field reads, operators, branches, closedness after mono, ANF immediacy); the Core/Mono/Lift/ANF terms the real compiler produced for every accepted program are exported structurally and TLC evaluates the judgment on them (IRTypingCheck.tla); ill-typed variants with one injected type error must be rejected by the typer",
